@@ -31,6 +31,31 @@ CLAIMED = {
    note="Trusted: Coq kernel; Codec.v model tied by correspondence; reflect's panic behaviour is observed, not modelled.",
    technique="Coq decision-table lemmas + exhaustive shape/position run of the implementation under recover",
    design="3/C13"),
+ "C07": dict(
+   text="Machine-checked proof over the session model: for EVERY configuration, input byte stream and handler script the trace has the shape (read-arm? request-events write-arm? Wrote)* read-arm? events Close (C07_trace_shape, induction over the request loop; no bound on requests): each processed request is followed by exactly one response before anything of the next request, and an unanswered request is followed by Close and nothing else. C07_step: each iteration answers the message decoded from the ONE persistent decoder state with the encoding of build_response for that request and continues from the state left behind, so the k-th response answers the k-th request; C07_response_answers / C07_item_echo (instance: regenerated schema): version, correlation value, batch count, server time, one item per request item in order with the same operation and unique id. Tie: the real Server.Serve runs on in-memory connections with scripted handlers; its logged events are compared with the extracted model's trace for the same case; sequential delivery additionally checks 'connection open with a request unanswered'.",
+   note="Trusted: Coq kernel; Session.v hand model of server.go tied by correspondence; codec model (C01-C06) for decoding requests / encoding responses; goroutines, net.Conn, time.Now modelled. Time stamps are bracketed against the wall clock and normalised before comparison.",
+   technique="Coq proof (induction over the request loop) of trace shape + extracted-model vs real-server trace comparison",
+   design="3/C07"),
+ "C08": dict(
+   text="Machine-checked proof: C08_items - for every batch and script the handler invocations are exactly the items with a registered handler, once each, in item order, with that item's payload, and the response items are position by position the outcome of that item; C08_outcome - Success+payload / Operation Failed with message and reason / General Failure for plain errors and panics; C08_independent, C08_unscripted_independent - item i's outcome is a function of behaviour i alone; C08_no_divergence. 'Cannot kill the server' is a runtime fact decided by the tie: scripted handlers return every behaviour (payloads of the right, wrong and unencodable kinds, nil, errors, errors with reason, panic(string|error|nil|int)) at every position, with concurrent connections; a crash of the harness process is the violation.",
+   note="Trusted: as C07. recover() and process death are observed, not modelled (panic(nil) is exercised with GODEBUG panicnil=1 compiled into the harness).",
+   technique="Coq proof over handle_items + scripted-behaviour runs of the real server",
+   design="3/C08"),
+ "C09": dict(
+   text="Machine-checked proof: C09_session_gate - a failed session-auth callback yields exactly [SessAuth false; Close]; C09_request_gate / C09_not_admitted - a request with credentials and no callback, or rejected credentials, is never admitted: no handler event, no response, at most the failed ReqAuth then Close; C09_context - every handler invocation in any trace carries this connection's session id and session-auth value and (C09_request_gate) the request-auth value computed from THAT request's credentials, nil when it has none (C09_rauth_nil_without_credentials). Tie: sessions with accepted / rejected / absent credentials in every order, with and without callbacks, 1-4 concurrent connections with distinct identities; handlers log what they saw.",
+   note="Trusted: as C07. Concurrent sessions are modelled as independent functions of their own connection; cross-connection leaks are looked for by the concurrent harness cases.",
+   technique="Coq proof over handle_batch/session + scripted authentication runs",
+   design="3/C09"),
+ "C10": dict(
+   text="Machine-checked proof: C10_step / C10_trace - for EVERY byte stream, handler and response events occur only in iterations whose message decoded completely and was admitted; the first message that is not is followed by Close and nothing else; C10_terminates; C10_isolation - a server's traces are the map of the per-connection function. Release of goroutine and connection is a runtime fact: the harness sends garbage / truncated / wrong-type / bad-count / asynchronous messages at every position next to valid traffic and checks Close, no leaked goroutines, Serve returning nil.",
+   note="Trusted: as C07; goroutine/connection release is observed (runtime.NumGoroutine, logged Close), not modelled: partial in that respect.",
+   technique="Coq proof over the session model on arbitrary bytes + hostile-stream runs of the real server",
+   design="3/C10"),
+ "C15": dict(
+   text="Machine-checked proof: C15_rearmed - every trace is (arm_r ++ events ++ arm_w ++ Wrote)* ++ arm_r ++ events ++ Close with arm_r = [ArmRead] iff ReadTimeout <> 0 and arm_w = [ArmWrite] iff WriteTimeout <> 0, for all histories; C15_zero_means_none. Tie: the logging connection records every SetReadDeadline/SetWriteDeadline relative to writes; real-time scenarios with wide margins (timely requests outliving the timeout survive; a stall before or inside a request disconnects; a peer that does not read is disconnected by the write deadline; zero timeouts set nothing) and deadline values = now + T.",
+   note="Trusted: as C07; net.Conn deadline semantics and the wall clock are modelled by the in-memory connection (partial: the TLS handshake arm and the Client side are exercised in the TLS/client suites).",
+   technique="Coq proof of arm positions in every trace + real-time scenarios",
+   design="3/C15"),
 }
 
 m = {
